@@ -362,6 +362,18 @@ def json_body(cfg):
                                       dictcls=OrderedDict, maxlevel=maxlevel).export(nodes[s]))
         if text != ref:
             return {"why": "custom dictexporter not honoured / maxlevel not forwarded", "pv": pv, "start": s, "got": text, "exp": ref}
+        # a DictExporter SUBCLASS with its own export() is used as given (and gets maxlevel)
+
+        class TaggingExporter(DictExporter):
+            def export(self, node):
+                data = DictExporter.export(self, node)
+                data["exported_with_maxlevel"] = self.maxlevel
+                return data
+
+        text = JsonExporter(dictexporter=TaggingExporter(), maxlevel=maxlevel).export(nodes[s])
+        refx = TaggingExporter(maxlevel=maxlevel)
+        if text != json.dumps(refx.export(nodes[s])):
+            return {"why": "supplied DictExporter subclass not used as given", "pv": pv, "start": s, "got": text}
         # custom dictimporter is used; json.loads kwargs are forwarded
         full = JsonExporter().export(nodes[s])
         root = JsonImporter(dictimporter=DictImporter(nodecls=U)).import_(full)
